@@ -41,7 +41,42 @@ fn history<const D: usize>(hid: usize, rng: &mut Rng, out: &mut Out, steps: usiz
     }
 }
 
+/// removals under `DelaunayRepairPolicy::EveryN(n)`: the repair after a removal must run whatever
+/// the phase of the insertion counter.  k preparatory insertions set the phase, an explicit global
+/// repair makes the pre-state Delaunay again, then vertices are removed one after the other; with
+/// repair enabled every Ok result is judged by the exact empty-sphere oracle.
+fn everyn_history<const D: usize>(hid: usize, k: usize, n: usize, rng: &mut Rng, out: &mut Out, removals: usize) {
+    let np = D + 4 + rng.below(6) as usize;
+    let ps = gens::point_set(rng, D, np);
+    let Some(mut w): Option<World<D>> = hist::start_built::<D>(&ps.pts, 1, rng) else { return };
+    let nn = std::num::NonZeroUsize::new(n).unwrap();
+    w.dt.set_delaunay_repair_policy(DelaunayRepairPolicy::EveryN(nn));
+    w.repair_on = true;
+    for _ in 0..k { let (p, _) = w.pick_point_class(rng, 8, 0); let _ = w.do_insert(p, false, rng); }
+    if crate::common::catch(|| w.dt.repair_delaunay_with_flips().is_ok()) != Ok(true) { return; }
+    if w.dt.number_of_cells() == 0 || w.dt.validate().is_err() { return; }
+    for s in 0..removals {
+        let keys = w.live_keys();
+        if keys.len() <= D + 2 { break; }
+        let vk = *rng.pick(&keys);
+        let obs = w.do_remove(Some(vk), rng);
+        let ok_removed = obs.iter().any(|(k, v)| k == "outcome" && v.starts_with("removed"));
+        let due = ok_removed && w.dt.number_of_cells() > 0;
+        let hull = obs.iter().any(|(k, v)| k == "ctx_hull" && v == "1");
+        let args = format!("{} known=1 hull={} pol=EveryN{n}_phase{k}", w.expect_args(due), hull as u8);
+        w.emit_state(&format!("rn{D}_{hid}_{k}_{n}_{s}"), "remove", &args, &obs, out, false);
+        if w.dt.number_of_cells() > 0 && w.dt.as_triangulation().is_valid().is_err() { break; }
+    }
+}
+
 pub fn run(cfg: &Cfg, rng: &mut Rng, out: &mut Out) {
+    for h in 0..(if cfg.tier == "thorough" { 6 } else { 2 }) {
+        for (k, n) in [(0usize, 2usize), (1, 2), (2, 3), (1, 3)] {
+            everyn_history::<2>(h, k, n, rng, out, 6);
+            everyn_history::<3>(h, k, n, rng, out, 5);
+            if h == 0 { everyn_history::<4>(h, k, n, rng, out, 3); }
+        }
+    }
     let thorough = cfg.tier == "thorough";
     let nh = if thorough { 40 } else { 10 };
     for h in 0..nh {
